@@ -165,6 +165,87 @@ def _staggered_once(job):
     return {"line": _render(job["folders"], prods, raised, job.get("damaged", ())), "extra": {n: prods.get(n) for n, _ in job.get("extra", [])}}
 
 
+def _decoder_failure(job):
+    """a folder whose packed stream is damaged so that the decoder itself fails: every mode must raise"""
+    path, mode = job
+    import py7zr
+    raised = None
+    dest = tempfile.mkdtemp(prefix="verif_c13d_")
+    try:
+        if mode == "sequential":
+            with open(path, "rb") as f:
+                with py7zr.SevenZipFile(f, "r") as z:
+                    z.extractall(dest)
+        else:
+            with py7zr.SevenZipFile(path, "r", mp=(mode == "processes")) as z:
+                z.extractall(dest)
+    except Exception as e:  # noqa
+        raised = type(e).__name__
+    shutil.rmtree(dest, ignore_errors=True)
+    return raised
+
+
+def _worker_death(job):
+    """process mode: the worker of one folder dies without reporting (as a crashing codec library would make it)"""
+    path, victim = job
+    import multiprocessing
+    import signal
+    import py7zr
+    import py7zr.py7zr as core
+    orig = core.Worker._extract_single
+
+    def patched(self, fp, files, path_, src_end, q, skip_notarget=True):
+        if multiprocessing.current_process().name != "MainProcess" and files and any(f.filename.startswith("fol%d/" % victim) for f in files):
+            # the worker gets through all members but the last, starts the last one, and dies in the middle of it
+            fl = list(files)
+            orig(self, fp, fl[:-1], path_, src_end, q, skip_notarget)
+            out = self.target_filepath.get(fl[-1].id)
+            if out is not None:
+                out.parent.mkdir(parents=True, exist_ok=True)
+                with open(out, "wb") as f:
+                    f.write(b"partial")
+            os.kill(os.getpid(), signal.SIGKILL)
+        return orig(self, fp, files, path_, src_end, q, skip_notarget)
+    core.Worker._extract_single = patched
+    dest = tempfile.mkdtemp(prefix="verif_c13k_")
+    raised = None
+    try:
+        with py7zr.SevenZipFile(path, "r", mp=True) as z:
+            z.extractall(dest)
+    except Exception as e:  # noqa
+        raised = type(e).__name__
+    got = sorted(os.path.relpath(os.path.join(dp, n), dest) for dp, _, fn in os.walk(dest) for n in fn)
+    shutil.rmtree(dest, ignore_errors=True)
+    return raised, got
+
+
+def _moved_cwd(job):
+    """the archive is opened by a RELATIVE name and the process changes its working directory before extracting"""
+    path, mp = job
+    import py7zr
+    d = os.path.dirname(path)
+    os.chdir(d)
+    other = tempfile.mkdtemp(prefix="verif_c13j_")
+    dest = os.path.join(other, "out")
+    raised = None
+    try:
+        z = py7zr.SevenZipFile(os.path.basename(path), "r", mp=mp)
+        os.chdir(other)
+        try:
+            z.extractall(dest)
+        finally:
+            z.close()
+    except Exception as e:  # noqa
+        raised = type(e).__name__
+    got = {}
+    for dp, _, fn in os.walk(dest):
+        for n in fn:
+            got[os.path.relpath(os.path.join(dp, n), dest)] = open(os.path.join(dp, n), "rb").read()
+    os.chdir("/")
+    shutil.rmtree(other, ignore_errors=True)
+    return raised, got
+
+
 def _shared_dir(job):
     """members of different folders share a directory that does not exist yet and has no entry of its own: all
     workers are made to arrive at os.mkdir() for it together (a barrier in the harness, stdlib call wrapped)"""
@@ -522,6 +603,68 @@ def run(ctx):
                 out = out.replace("raise=" + r, "raise=ANY")
             return out
         ctx.correspond_model("conc.staggered", lines, impl, translate2, classes)
+
+        # decoder failures (not CRC mismatches) in a folder of every codec family, at every folder position: the
+        # damaged packed stream makes the codec library itself raise - zlib.error, ZstdError, LZMAError, OSError, ... -
+        # and whatever it raises has to reach the caller in every mode
+        import py7zr as _p
+        djobs, dmeta = [], []
+        fams = [("Deflate", [{"id": arclib.FILTER_DEFLATE}]), ("ZStandard", [{"id": arclib.FILTER_ZSTD, "level": 1}]),
+                ("BZip2", BZ2), ("LZMA2", LZMA2), ("LZMA", [{"id": arclib.FILTER_LZMA, "preset": 1}]),
+                ("Brotli", [{"id": arclib.FILTER_BROTLI, "level": 3}])]
+        for fi_, (fam, flt) in enumerate(fams):
+            for pos in range(3):
+                path = os.path.join(tmp, "dec_%s_%d.7z" % (fam, pos))
+                codecs = [COPY, COPY, COPY]
+                codecs[pos] = flt
+                shape = [1, 2, 1] if (fi_ + pos) % 2 else [2, 1, 1]
+                try:
+                    folders, _ = schedlib.build_multifolder(path, rng, shape, codecs, sizes=(200, 900))
+                except Exception:  # noqa
+                    continue
+                with _p.SevenZipFile(path) as z:
+                    pp = z.header.main_streams.packinfo.packpositions
+                raw = bytearray(open(path, "rb").read())
+                start, end = 32 + pp[pos], 32 + pp[pos + 1]
+                # reserved / impossible stream starts for every codec family, and a stretch of garbage behind it
+                raw[start:start + min(8, end - start)] = b"\xff" * min(8, end - start)
+                open(path, "wb").write(bytes(raw))
+                for mode in ("sequential", "threads", "processes"):
+                    djobs.append((path, mode))
+                    dmeta.append((fam, pos, shape, mode))
+        dres = sandbox.pmap(_decoder_failure, djobs, timeout=120, workers=8)
+        for (fam, pos, shape, mode), (st, val) in zip(dmeta, dres):
+            conf = {"codec": fam, "damaged_folder": pos, "shape": shape, "mode": mode, "damage": "first bytes of the packed stream overwritten with 0xff"}
+            ctx.case(key=("decoder-failure", fam, pos, mode), nontrivial=True, sample=conf)
+            ctx.count("decoder-failure/" + mode, str(val) if st == "ok" else st)
+            if st != "ok":
+                ctx.fail("C13:decoder_failure_" + st, "extraction of an archive with a damaged %s folder did not complete (%s)" % (fam, mode), conf)
+            elif val is None:
+                ctx.fail("C13:worker_error_lost", "%s: the %s decoder failed in folder %d but extractall returned normally" % (mode, fam, pos), conf)
+
+        # a worker process that dies without a word, and a process that moves between open() and extractall()
+        kpath = os.path.join(tmp, "death.7z")
+        kfolders, _ = schedlib.build_multifolder(kpath, rng, [2, 1, 2], [COPY, LZMA2, COPY], sizes=(100, 400))
+        kres = sandbox.pmap(_worker_death, [(kpath, v) for v in range(3)], timeout=120, workers=3)
+        for v, (st, val) in enumerate(kres):
+            conf = {"mode": "processes", "dying_worker": v, "how": "SIGKILL inside the worker before it extracts its folder"}
+            ctx.case(key=("worker-death", v), nontrivial=True, sample=conf)
+            if st != "ok":
+                ctx.fail("C13:worker_death_" + st, "extraction did not complete: %s" % str(val)[:200], conf)
+            elif val[0] is None:
+                ctx.fail("C13:worker_error_lost", "processes: the worker of folder %d died and extractall returned normally with %d of 5 members" % (v, len(val[1])), dict(conf, delivered=val[1]))
+            else:
+                ctx.count("worker-death", val[0])
+        jres = sandbox.pmap(_moved_cwd, [(kpath, False), (kpath, True)], timeout=120, workers=2)
+        want = {n: d for mem in kfolders for n, d in mem}
+        for mp, (st, val) in zip((False, True), jres):
+            conf = {"mode": "processes" if mp else "threads", "how": "archive opened by relative name, os.chdir() elsewhere, then extractall(absolute destination)"}
+            ctx.case(key=("moved-cwd", mp), nontrivial=True, sample=conf)
+            if st != "ok":
+                ctx.fail("C13:moved_cwd_" + st, "extraction did not complete: %s" % str(val)[:200], conf)
+            elif val[0] is not None or val[1] != want:
+                ctx.fail("C13:mode_dependent_output", "%s: after a change of working directory the open archive no longer extracts (%s, %d of %d members right)"
+                         % (conf["mode"], val[0], sum(1 for n in want if val[1].get(n) == want[n]), len(want)), conf)
 
         # workers meeting at the creation of a shared parent directory
         import py7zr
